@@ -66,7 +66,11 @@ func newMemFS(ents []TreeEntry, log *evLog) *memFS {
 			}
 			st = src.st.Clone()
 			st.Path = e.Path
-			st.Linkname = e.Link
+			if os.FileMode(st.Mode)&os.ModeSymlink == 0 {
+				st.Linkname = e.Link
+			}
+			// (a second name of a symlink is announced as a symlink with the same target, as fs.Walk does: the link-name
+			// field of a symlink entry is its target, the protocol has no way to announce a hard link between symlinks)
 		} else {
 			st.Mode = goMode(unixTypeBits(e.Type) | e.Mode)
 			switch e.Type {
